@@ -177,6 +177,8 @@ def pmap(fn, arglist, jobs=None, timeout=3600):
 
 def chunks(n, k):
     """split range(n) into k contiguous (lo,hi) pieces"""
+    if n <= 0:
+        return []
     k = max(1, min(k, n))
     step = (n + k - 1) // k
     return [(lo, min(n, lo + step)) for lo in range(0, n, step)]
